@@ -31,6 +31,11 @@ def _random_job(job):
     return lines, 0, err, ops
 
 
+def _float_job(job):
+    from . import kernel_float as KF
+    return KF.run(*job)
+
+
 def _pipeline(tier):
     cfg = TIERS[tier]
     t0 = time.time()
@@ -84,6 +89,19 @@ def _pipeline(tier):
     # an exception escaping a kernel call that the specification accepts is a C01 observation
     for tid, err in errs:
         vio.append({'tid': tid, 'k': -1, 'clause': 'C01.Exception', 'scenario': dict(scen[tid], error=err)})
+    # 5. off the exact grid: nearly equal float times (KernelFloat.tla)
+    fjobs = [(len(traces) + i + 1, C.seed() * 9973 + i) for i in range(400 if tier == 'quick' else 8000)]
+    ftraces = C.parallel_map(_float_job, fjobs)
+    ffails, fl, _ = P.validate_traces(stage, 'KernelFloat', 'KernelFloat.cfg', ftraces)
+    res['float_runs'] = len(fjobs)
+    res['float_lines'] = fl
+    seenf = set()
+    for tid, k, clause in sorted(ffails):
+        if clause in seenf:
+            continue
+        seenf.add(clause)
+        vio.append({'tid': tid, 'k': k, 'clause': clause,
+                    'scenario': {'kind': 'float', 'ops': None, 'seed': dict(fjobs)[tid]}})
     res['violations'] = vio[:400]
     res['n_violations'] = len(vio)
     res['samples'] = [scen[1]['ops'] if 1 in scen else None, scen[base + 1]['ops'][:12] if rjobs else None]
@@ -123,6 +141,7 @@ def run(prop, tier):
         'exhaustive': True,
         'design': res['design'],
         'impl_trace_lines': res['lines'],
+        'non_grid_runs': res.get('float_runs', 0), 'non_grid_steps': res.get('float_lines', 0),
         'floor_trace_lines_checked_for_dispatch_order': floor_lines,
         'impl_lines_of_this_property': sum(res['exercised'].get(o, 0) for o in mine),
         'exercised': res['exercised'],
@@ -145,6 +164,11 @@ def run(prop, tier):
 
 def replay(sc):
     from . import kernel_driver as D
+    if sc.get('kind') == 'float':
+        from . import kernel_float as KF
+        stage = C.stage_specs(C.scratch('kernel_replay'), {'KernelBodies.tla': bodies_module()})
+        fails, n, _ = P.validate_traces(stage, 'KernelFloat', 'KernelFloat.cfg', [KF.run(1, sc['seed'])], shards=1)
+        return fails, None
     stage = C.stage_specs(C.scratch('kernel_replay'), {'KernelBodies.tla': bodies_module()})
     lines, div, err = D.run_sequence(1, sc['ops'], forced=(sc.get('kind') == 'tlc-behaviour'), seed=sc.get('seed') or 0)
     fails, n, _ = P.validate_traces(stage, 'KernelTrace', 'KernelTrace.cfg', [lines], shards=1)
